@@ -244,6 +244,10 @@ func (matrix *DenseFloat32Matrix) AsVector() Vector {
   return DenseFloat32Vector(matrix.values)
 }
 func (matrix *DenseFloat32Matrix) storageLocation() uintptr {
+  if len(matrix.values) == 0 {
+    // no storage to point into: the matrix header identifies an empty matrix
+    return uintptr(unsafe.Pointer(matrix))
+  }
   return uintptr(unsafe.Pointer(&matrix.values[0]))
 }
 /* const interface
